@@ -92,6 +92,12 @@ pub enum Sym {
     RepayViaCpi(u8),
     /// withdraw invoked by an allow-listed foreign program (Jupiter) through CPI
     WithdrawViaAllowedCpi(u8),
+    /// instructions of this program that succeed on their own and touch nobody else's positions: the third party
+    /// deposits into its *own* marginfi account, the permissionless interest crank of bank 0, the permissionless
+    /// health pulse of a subject account (used in the side enumeration only)
+    OwnDeposit,
+    Accrue,
+    PulseHealth(u8),
 }
 
 pub fn alphabet(tier: Tier) -> Vec<Sym> {
@@ -135,6 +141,9 @@ pub fn build_ix(sc: &Sc, s: &Store, sym: Sym) -> Ix {
         Sym::WithdrawViaCpi(i) => ix::withdraw(w.group, acct(i), liq, w.banks[0].key, ta(0), w.banks[0].token_program, 10_000_000, None, rem(i)).via(proxy()),
         Sym::WithdrawViaAllowedCpi(i) => ix::withdraw(w.group, acct(i), liq, w.banks[0].key, ta(0), w.banks[0].token_program, 10_000_000, None, rem(i)).via(marginfi::constants::JUP_KEY),
         Sym::RepayViaCpi(i) => ix::repay(w.group, acct(i), liq, w.banks[1].key, ta(1), w.banks[1].token_program, 408_000_000, None, vec![]).via(proxy()),
+        Sym::OwnDeposit => ix::deposit(w.group, w.users[sc.liq].account, liq, w.banks[0].key, ta(0), w.banks[0].token_program, 5_000_000, None, vec![]),
+        Sym::Accrue => ix::accrue(w.group, w.banks[0].key),
+        Sym::PulseHealth(i) => ix::pulse_health(acct(i), rem(i)),
     }
 }
 
@@ -465,6 +474,20 @@ pub fn run(tier: Tier) -> Outcome {
             if r.committed && r.class.ends_with("took_control") && committed_lists.len() < 4 {
                 committed_lists.push(json!({"committed_bracket": l}));
             }
+            if found.len() < 5000 {
+                found.extend(r.found);
+            }
+        }
+        shape_cells += lists.len() as u64;
+    }
+    // side enumeration: every list up to length 5 over a bracket skeleton plus instructions of this program that
+    // succeed on their own (the third party's deposit into its own account, the interest crank, the health pulse)
+    let side = [Sym::Start(0), Sym::End(0), Sym::WithdrawSmall(0), Sym::RepayMid(0), Sym::OwnDeposit, Sym::Accrue, Sym::PulseHealth(0)];
+    for lists in shape_chunks(&side, 5) {
+        let results: Vec<ShapeOut> = lists.par_iter().map(|l| run_shape(&sc, l)).collect();
+        for (l, r) in lists.iter().zip(results.into_iter()) {
+            let uses_extra = l.iter().any(|s| matches!(s, Sym::OwnDeposit | Sym::Accrue | Sym::PulseHealth(_)));
+            *classes.entry(format!("side:{}{}", r.class, if uses_extra { ":with_own_program_ix" } else { "" })).or_insert(0) += 1;
             if found.len() < 5000 {
                 found.extend(r.found);
             }
